@@ -16,6 +16,9 @@ pub enum IOp {
     NewEvaluated(Vec<f64>),
     NewUnevaluated(Vec<f64>),
     Evaluate(usize),
+    /// `evaluate_with` another function than last time (a surrogate, a dynamic or noisy
+    /// objective): the value is the one the function asked *now* assigns
+    EvaluateOther(usize),
     SetObjective(usize),
     /// `solution_mut()[k] = v`
     Write(usize, usize, f64),
@@ -73,7 +76,7 @@ impl World for IndividualHistories {
                 match g.below(16) {
                     0 | 1 => IOp::NewEvaluated(sol(&mut g)),
                     2 | 3 => IOp::NewUnevaluated(sol(&mut g)),
-                    4 => IOp::Evaluate(i),
+                    4 => if g.chance(0.7) { IOp::Evaluate(i) } else { IOp::EvaluateOther(i) },
                     5 => IOp::SetObjective(i),
                     6 => IOp::Write(i, g.below(dim), (g.below(9) as f64) - 4.0),
                     7 => IOp::TouchMut(i),
@@ -117,6 +120,10 @@ impl World for IndividualHistories {
                 IOp::Evaluate(i) if *i < a.len() => {
                     a[*i].evaluate_with(|s| obj(f(&p, s)));
                     ma[*i].1 = Some(f(&p, &ma[*i].0));
+                }
+                IOp::EvaluateOther(i) if *i < a.len() => {
+                    a[*i].evaluate_with(|s| obj(f(&p, s) * 0.5 + 3.0));
+                    ma[*i].1 = Some(f(&p, &ma[*i].0) * 0.5 + 3.0);
                 }
                 IOp::SetObjective(i) if *i < a.len() => {
                     let v = f(&p, &ma[*i].0);
